@@ -64,9 +64,11 @@ HistoryCases == { [kind |-> "history", cls |-> c, npops |-> n, ns |-> ns, real |
                     c \in {"FlowHistory", "SMCHistory"}, n \in HistPops, ns \in {"numpy", "torch", "jax"}, r \in BOOLEAN, sv \in {1, 2} }
 
 (* ---- transforms and flows ------------------------------------------------ *)
-TransformCases == { [kind |-> "transform", cls |-> c, fitted |-> f, ns |-> n, dtype |-> d, saves |-> sv] :
+\* eps: the clipping margin the object was constructed with ("default" or 1e-2) belongs to the map
+TransformCases == { [kind |-> "transform", cls |-> c, fitted |-> f, ns |-> n, dtype |-> d, saves |-> sv, eps |-> e] :
                       c \in {"Composite", "CompositeFull", "FlowTransform", "Affine", "Logit", "Probit", "Periodic", "Identity"},
-                      f \in BOOLEAN, n \in {"numpy", "torch", "jax"}, d \in {"float32", "float64"}, sv \in {1, 2} }
+                      f \in BOOLEAN, n \in {"numpy", "torch", "jax"}, d \in {"float32", "float64"}, sv \in {1, 2},
+                      e \in {"default", "large"} }
 \* saves: an object may be written more than once (a checkpoint file, then a result file): saving is a
 \* query, the second file must reload to the same object as the first (2 = the second file is read back).
 \* transform: the flow was constructed with a fitted data transform (logit + affine)
